@@ -45,7 +45,7 @@ TIMEOUT = 10.0
 THEOREMS = ("C08_partition_invisible(_file,_zip,_zips,_tsv), C08_tsv_line_compositional, C08_both_passes_same, "
             "C08_same_stream_single_graph, C08_renamings_invisible_partial, C08_feature_pass_same_ids, "
             "C08_dispatch_total, C08_tsv_reads_nt_semantics, C08_tsv_channel_kinded, C08_channel_independent_lines, "
-            "C08_tsv_channel_independent (Props/C08.v)")
+            "C08_tsv_channel_independent, C08_rdflib_counts_invariant (Props/C08.v)")
 
 
 def workdir():
